@@ -4,7 +4,7 @@ From Coq Require Import String List NArith ZArith Bool.
 From J5V.lib Require Import Outcome.
 From J5V.model Require Import RulesDecl RulesWrite RulesRead Validate.
 From J5V.gen Require Id62Gen RulesGen.
-From J5V.proofs Require Import RulesProofs RulesReadProofs RulesGenProofs.
+From J5V.proofs Require Import RulesProofs RulesReadProofs RulesGenProofs RulesReadGenProofs.
 Import ListNotations.
 Local Open Scope N_scope.
 
